@@ -294,7 +294,7 @@ RejoinOrUndead(c) ==
 
 HandleSelfUpdate(c, inc, state) ==
     IF ~Live(c) THEN c
-    ELSE IF state = "S" /\ c.st.conn = "U" THEN c   \* (fix f6702a7) a dead identity does not refute
+    ELSE IF state = "S" /\ c.st.conn = "U" /\ Fixed("f6702a7") THEN c   \* (fix f6702a7) a dead identity does not refute
     ELSE IF state = "S" THEN
         LET increase == c.st.inc <= inc
             mx == Max(inc, c.st.inc)
@@ -434,7 +434,7 @@ ChangeSuspectToDown(c, t) ==
                 c2 == AdjustConnectionState(c1)
             IN \* (fix 654ac52) the courtesy TurnUndead goes out only when the member was
                \* actually declared down by this timeout
-               IF s.ok /\ st.cfg.notifydown
+               IF (s.ok \/ ~Fixed("654ac52")) /\ st.cfg.notifydown
                THEN SendMessage(c2, t.id, Msg("TurnUndead", 0, NoId))
                ELSE c2
 
@@ -447,7 +447,7 @@ ChangeSuspectToDown(c, t) ==
 AnnounceToDown(c, k) ==
     IF ~Live(c) THEN c ELSE
     LET down == {m.id : m \in DownRecs(c.st.mem)}
-        own == {i \in down : Addr(i) = Addr(c.st.id)}
+        own == IF Fixed("3f5c312") THEN {i \in down : Addr(i) = Addr(c.st.id)} ELSE {}
         others == down \ own
         n == Min(k, Cardinality(down))
         avail == IF c.auto THEN n ELSE Max(Len(c.sends) - c.ti + 1, 0)
@@ -545,7 +545,7 @@ HandleData(st, d, tape, hl, dbg) ==
                     c2 == IF h.msg.k = "TurnUndead" THEN HandleSelfUpdate(c1, 0, "D") ELSE c1
                     \* (fix 7418747) a TurnUndead that finds the instance already Undead is not
                     \* answered with another TurnUndead: that reply loop never ended
-                    stale == h.msg.k = "TurnUndead" /\ wasUndead
+                    stale == h.msg.k = "TurnUndead" /\ wasUndead /\ Fixed("7418747")
                     c3 == IF Live(c2) /\ c2.st.cfg.notifydown /\ ~stale
                           THEN SendMessage(c2, h.src, Msg("TurnUndead", 0, NoId))
                           ELSE c2
@@ -627,7 +627,7 @@ DoSetConfig(st, a, tape, hl, dbg) ==
     IF ConfigRefused(st.cfg, a.cfg) THEN Finish(Fail(c, "Err:InvalidConfig"), "Ok")
     ELSE \* (fix 66b62cc) the send buffer is re-created when max_packet_size changes
          Finish([c EXCEPT !.st.cfg = a.cfg,
-                          !.st.bufcap = IF a.cfg.maxpkt # st.cfg.maxpkt THEN a.cfg.maxpkt ELSE @], "Ok")
+                          !.st.bufcap = IF a.cfg.maxpkt # st.cfg.maxpkt /\ Fixed("66b62cc") THEN a.cfg.maxpkt ELSE @], "Ok")
 
 \* dispatcher
 Step(st, call, args, tape, hl, dbg) ==
